@@ -349,6 +349,32 @@ func c06Keys(c *Ctx, tus []*cfront.TU, uses []mapUse) {
 				fmt.Sprintf("Go composes %v, the kernel programs compose %v from the frame's hardware address", p, *macC))
 		}
 	}
+	// fixed-size byte keys built from a variable-length identifier (circuit-id): the kernel zero-fills the key and
+	// copies the first min(len, N) raw bytes; the Go helper must be exactly that (no trimming, hashing or re-encoding)
+	for _, f := range c.moduleFuncs() {
+		if f.Pkg == nil || !strings.HasSuffix(f.Pkg.Pkg.Path(), "pkg/ebpf") || len(f.Params) != 1 || f.Signature.Results().Len() != 1 || f.Signature.Recv() != nil {
+			continue
+		}
+		arr, isArr := f.Signature.Results().At(0).Type().Underlying().(*types.Array)
+		if !isArr || !isByteSeq(f.Params[0].Type()) || !isByteSeq(f.Signature.Results().At(0).Type()) {
+			continue
+		}
+		s := g.summary(f)
+		fn := load.ShortFunc(f)
+		okK := s.ok && int64(len(s.comp)) == arr.Len()
+		why := s.why
+		if okK {
+			for i, b := range s.comp {
+				if b.root != f.Params[0].Name()+"|0" || b.idx != int64(i) {
+					okK = false
+					why = fmt.Sprintf("byte %d of the key is %v, not byte %d of the identifier (zero when absent)", i, b, i)
+					break
+				}
+			}
+		}
+		r.Check("C06.keyDerivation", fn, "fixed-size key is the zero-padded raw prefix of the identifier", c.P.Pos(f.Pos()), okK,
+			"the kernel program zero-fills the key and copies the identifier's first bytes unchanged; this helper does something else ("+why+"): identifiers for which the two differ are never found by the fast path, or are found under another subscriber's key")
+	}
 	// ---- keys per call site ----
 	seenKey := map[string]bool{}
 	for _, u := range uses {
